@@ -216,7 +216,7 @@ Section Ids.
   Lemma http_S3 st sid e st' : S3 st -> http_event fuel O C st sid e = Some st' -> S3 st'.
   Proof.
     intros HS. pose proof HS as (U & ND & LT & TI & EI). unfold http_event.
-    destruct e as [|url ip|d|hlen|d| |reser revisit|];
+    destruct e as [|url ip|d|hlen|d| |reser revisit| |];
       destruct (sfind sid (st_sess st)) as [[h|f]|] eqn:F; try discriminate;
       try (pose proof (table_ids_find _ _ _ TI F) as (I1 & I2)); try use_found.
     - intros H. apply some_inj' in H. subst st'.
@@ -307,6 +307,16 @@ Section Ids.
       + apply table_ids_del, TI.
       + reflexivity.
       + unfold K. rewrite ?evs_with_sess. cbn [st_sess with_sess]. perm_lia.
+    - destruct (Nat.eqb (h_stage h) 1 || Nat.eqb (h_stage h) 3); [|discriminate].
+      intros H. apply some_inj' in H. subst st'.
+      (* the ids of the record that could not be written are dropped, like those of a session closed early *)
+      apply (S3_step st _ false (pend (SH h))); try assumption; cbn [st_sess with_sess].
+      + apply sput_uniq, U.
+      + apply table_ids_put; [split; exact I|exact TI].
+      + reflexivity.
+      + unfold K. rewrite ?evs_with_sess. cbn [st_sess with_sess]. rewrite pend_all_sput.
+        change (pend (SH (mkH 5 (h_url h) (h_ip h) None None (h_tmp h) (h_poff h) (h_head h)))) with (@nil nat).
+        cbn [app]. perm_lia.
   Qed.
 
   Lemma ftp_S3 st sid e st' : S3 st -> ftp_event fuel O C st sid e = Some st' -> S3 st'.
